@@ -9,6 +9,7 @@ mod c03;
 mod c04;
 mod c05;
 mod c06;
+mod c07;
 mod c08;
 mod c09;
 mod c11;
@@ -47,6 +48,7 @@ fn main() {
         "C04" => c04::run(&mut rng, n),
         "C05" => c05::run(&mut rng, n),
         "C06" => c06::run(&mut rng, n),
+        "C07" => c07::run(&mut rng, n),
         "C08" => c08::run(&mut rng, n),
         "C09" => c09::run(&mut rng, n),
         "C11" => c11::run(&mut rng, n),
